@@ -24,6 +24,7 @@ from pyplumio.protocol import AsyncProtocol, Queues  # noqa: E402
 
 ADDR_NAME = {69: "ecomax", 81: "ecoster"}
 SETUP_KINDS = {57, 85, 49, 61, 54, 50, 92, 58}
+VER_KINDS = [64, 48]  # Conn.verKinds: program version, check device (pinned by C12.verKinds_eq)
 RANK = {"ann": 0, "wclose": 1, "open": 2, "tx": 3, "newdev": 4, "deliver": 5, "cfail": 6, "closed": 7}
 MODE = {"o": "ok", "r": "raise", "h": "hang"}
 
@@ -149,6 +150,7 @@ class Runner:
         self.gate_waiting = set()  # addrs whose callback is blocked right now
         self.fed = []  # (event index, addr, kind) of every complete frame for us handed to a reading producer
         self.nev = -1
+        self.sessions = 0  # times the connection object was used again after a close() that returned
         self.devices = {}  # addr -> device object first seen
         self.dev_ids = {}
         self.own = set()
@@ -229,6 +231,14 @@ class Runner:
         loop = self.loop
         k = parts[0]
         self.nev += 1
+        if self.close_task is not None and self.close_task.done():
+            if k in ("C", "Z"):
+                # the connection object is used again (second connect() / `async with`, or a second close()): the machine's `reopen`
+                self.sessions += 1
+                self.close_task = None
+                self.close_t0 = self.close_t1 = None
+            elif k not in ("A", "K"):
+                return self.segment()  # nothing is done to a closed connection but letting time pass (the machine ignores it too)
         if k == "G":  # harness only: the next new-device callback for this address blocks until R
             a = int(parts[1])
             if a not in self.gates and a not in self.devices:
@@ -255,7 +265,9 @@ class Runner:
             c, _ = self.classify()
             idle = (self.connect_task is None or self.connect_task.done()) and self.close_task is None
             if idle and not self.protocol.connected.is_set() and c["p"] + c["l"] + c["r"] == 0:
-                self.connect_task = loop.create_task(self.conn.connect(), name="harness-connect")
+                # `~ctx`: through the context manager (`async with connection:` enters with __aenter__)
+                coro = self.conn.__aenter__() if variant == "ctx" else self.conn.connect()
+                self.connect_task = loop.create_task(coro, name="harness-connect")
                 self.own.add(self.connect_task)
                 self.connect_task.add_done_callback(self._connect_done)
             self.settle()
@@ -267,6 +279,9 @@ class Runner:
                     self.fed.append((self.nev, int(parts[2]), 186))
                 elif parts[1] == "s":
                     data = connfake.sensor_frame(int(parts[2]), int(parts[3]))
+                    self.fed.append((self.nev, 69, 53))
+                elif parts[1] == "v":  # sensor data announcing version <ver> for the first n kinds of VER_KINDS
+                    data = connfake.sensor_frame(0, 0, versions=[(kd, int(parts[3])) for kd in VER_KINDS[:int(parts[2])]])
                     self.fed.append((self.nev, 69, 53))
                 elif parts[1] == "o":  # frame for us from a known address that has no device class
                     data = fg.mk(186, b"\x040000", 86, int(parts[2]))
@@ -333,7 +348,8 @@ class Runner:
         elif k == "Z":
             if self.close_task is None and (self.connect_task is None or self.connect_task.done()):
                 self.close_t0 = self.t()
-                self.close_task = loop.create_task(self.conn.close(), name="harness-close")
+                coro = self.conn.__aexit__(None, None, None) if variant == "ctx" else self.conn.close()
+                self.close_task = loop.create_task(coro, name="harness-close")
                 self.own.add(self.close_task)
                 self.close_task.add_done_callback(self._close_done)
             self.settle()
@@ -420,7 +436,7 @@ class Runner:
             zt = self.t() - self.close_t0
         q = self.write_queue().qsize()
         st = (f"c={int(self.protocol.connected.is_set())},w={w},wa={wa},p={c['p']},k={c['k']},l={c['l']},r={c['r']},"
-              f"s={c['s']},rq={c['rq']},d={c['d']},b={c['b']},q={q},rs={self.read_queue().qsize()},t={self.t()},z={z},zt={zt},tie=0")
+              f"s={c['s']},rq={c['rq']},d={c['d']},b={c['b']},q={q},rs={self.read_queue().qsize()},t={self.t()},z={z},zt={zt},tie=0,n={name_counts(names)}")
         o = ";".join("/".join(str(x) for x in e) for e in outs)
         return (o if o else "-") + "#" + st
 
@@ -446,6 +462,14 @@ class Runner:
             events._set_running_loop(None)
             asyncio.set_event_loop(None)
             loop.close()
+
+
+def name_counts(names):
+    """live library tasks by the name of their coroutine function, in the format of the driver's `n=` field"""
+    cnt = {}
+    for nm in names:
+        cnt[nm] = cnt.get(nm, 0) + 1
+    return "+".join(f"{nm}*{cnt[nm]}" for nm in sorted(cnt)) if cnt else "-"
 
 
 def bad_frame(variant):
